@@ -147,6 +147,38 @@ def cmd_table():
         print(f"{sid:8} conf={'ok' if c.get('ok') else ('-' if not c else 'NO')} {det} :: {m.get('needs','')[:110]}")
 
 
+def cmd_readme():
+    """write /verif/seeded/README.md: one row per seeded change"""
+    rows = []
+    for sid in sorted(os.listdir(SEEDED)):
+        if not os.path.exists(meta_path(sid)): continue
+        m = load(sid)
+        c = m.get("confirmed") or {}
+        conf = "yes" if c.get("ok") else ("not yet" if not c else "NO")
+        det = []
+        for k, v in sorted(m.get("checks", {}).items()):
+            prop, tier, seed = k.split(":")
+            tag = f"{prop} {tier}" + ("" if seed == "s1" else f" {seed}")
+            det.append(f"**{tag}: caught**" + (f" (`{v['signatures'][0].replace('|', chr(92)+'|')}`" + (f" +{len(v['signatures'])-1}" if len(v['signatures']) > 1 else "") + ")" if v["signatures"] else "") if v["detected"] else f"{tag}: missed (exit {v['exit']})")
+        note = m.get("note", "")
+        rows.append(f"| {sid} | {m['property']} | {m.get('needs','').replace('|','/')} | {conf} | {'; '.join(det) or '-'} | {note} |")
+    head = """# Seeded changes (mutation trials)
+
+Each directory holds a change to els0r/goProbe written by an independent sub-agent that was given only the text of
+one property and its own scratch worktree (nothing from /verif): `patch.diff`, the agent's demonstration
+(`demo_test.go`, to be placed in `meta.json:demo_dir`), its `NOTES.md`, and `meta.json` (what the change needs in order
+to manifest, what was confirmed here, and which checks caught it). "confirmed" = in a fresh scratch worktree of /repo's
+HEAD the demonstration passes on the clean tree, and with the patch applied the tree builds, the demonstration fails and
+the pinned test suite still passes (`tools/seed.py confirm`). Checks are run against the patched scratch worktree with
+`VERIF_REPO=<worktree> ./run.sh <id> <tier>` (`tools/seed.py check`); nothing is ever applied to /repo.
+
+| seed | property | what it needs to manifest | confirmed | checks | note |
+|---|---|---|---|---|---|
+"""
+    open(os.path.join(SEEDED, "README.md"), "w").write(head + "\n".join(rows) + "\n")
+    print("wrote", os.path.join(SEEDED, "README.md"), len(rows), "seeds")
+
+
 if __name__ == "__main__":
     a = sys.argv[1:]
     if a[0] == "import": cmd_import(*a[1:])
@@ -160,3 +192,4 @@ if __name__ == "__main__":
             else: rest.append(v)
         cmd_check(a[1], rest, tier, seed)
     elif a[0] == "table": cmd_table()
+    elif a[0] == "readme": cmd_readme()
